@@ -243,6 +243,8 @@ func (env *SpecEnv) binderSort(tn string) (*Sort, types.Type) {
 	case "Bytes":
 		vc.needBytes = true
 		return &Sort{K: SOpaque, Name: "Bytes"}, nil
+	case "float64":
+		return vc.sortOf(types.Typ[types.Float64]), types.Typ[types.Float64]
 	}
 	for _, b := range types.Typ {
 		if b.Name() == tn {
